@@ -17,6 +17,7 @@ import (
 	"fmt"
 	"math/rand"
 	"net"
+	"strings"
 	"sync"
 	"sync/atomic"
 	"syscall"
@@ -45,6 +46,7 @@ type scenario struct {
 	WriteMs    int    `json:"write_timeout_ms"`
 	OneWay     bool   `json:"one_way"`
 	Proto      string `json:"proto"`
+	QueueMax   int    `json:"obj_queue_max"` // > 0: the proxy's bound on calls in flight (calls beyond it are refused at once)
 }
 
 // peer is a fault-script peer that can be turned healthy.
@@ -267,6 +269,7 @@ func newClient(sc scenario, addr string) *rpcw.Client {
 		o.QueueLen = 1
 	}
 	o.Proto = sc.Proto
+	o.ObjQueueMax = int32(sc.QueueMax)
 	if sc.Source == "proxy-timeout" {
 		o.InvokeTimeoutMs = sc.DeadlineMs
 	} else {
@@ -293,6 +296,13 @@ func runScenario(sc scenario) {
 		}
 		return []byte(tok)
 	}
+	// late replies: every other caller goes through a second proxy for the same object (own
+	// communicator, shared adapters and pending-reply table) — a reply that comes after its call
+	// gave up must not reach a call of the other proxy either
+	pxs := []*rpcw.Client{cl}
+	if strings.HasPrefix(sc.Fault, "late") && sc.Callers > 1 && sc.Proto != "ssl" {
+		pxs = append(pxs, cl.Sibling())
+	}
 	results := make([][]callResult, sc.Callers)
 	var wg sync.WaitGroup
 	for g := 0; g < sc.Callers; g++ {
@@ -301,7 +311,7 @@ func runScenario(sc scenario) {
 			defer wg.Done()
 			for i := 0; i < sc.PerCaller; i++ {
 				tok := fmt.Sprintf("c09-%d-g%d-%d", sc.ID, g, i)
-				results[g] = append(results[g], doCall(cl, sc, tok, payload(tok)))
+				results[g] = append(results[g], doCall(pxs[g%len(pxs)], sc, tok, payload(tok)))
 			}
 		}(g)
 	}
@@ -502,6 +512,21 @@ func main() {
 			}
 			id++
 			scs = append(scs, scenario{ID: id, Fault: f, Source: src, DeadlineMs: []int{100, 300, 600}[si], Callers: []int{1, 4}[id%2], PerCaller: 2, DialMs: 300, WriteMs: 500, Proto: "ssl"})
+		}
+	}
+	// many callers behind one endpoint whose connection establishment hangs: one establishment
+	// bound for all of them, not one each
+	for si, src := range sources {
+		id++
+		scs = append(scs, scenario{ID: id, Fault: "blackhole", Source: src, DeadlineMs: []int{100, 300, 600}[si], Callers: 24, PerCaller: 1, DialMs: 300, WriteMs: 500})
+		id++
+		scs = append(scs, scenario{ID: id, Fault: "accept-then-silence", Source: src, DeadlineMs: []int{100, 300, 600}[(si+1)%3], Callers: 24, PerCaller: 1, DialMs: 300, WriteMs: 500, Proto: "ssl"})
+	}
+	// a small bound on calls in flight: the calls refused at once must not stay counted
+	for si, src := range sources {
+		for _, f := range []string{"read-then-silence", "late-3", "refuse"} {
+			id++
+			scs = append(scs, scenario{ID: id, Fault: f, Source: src, DeadlineMs: []int{100, 300, 600}[si], Callers: 12, PerCaller: 2, DialMs: 300, WriteMs: 500, QueueMax: 3})
 		}
 	}
 	// replies that land right at the caller's deadline, many callers, many calls
